@@ -80,9 +80,11 @@ def geometry_job(job):
                 base = spzoo.rand_base(rng, scale=12.0 if far else 2.0)
                 sp.move(tm(base.copy()))
             elif stage == "respun":
-                sp.spinCustom(rng.uniform(-1.0, 1.0))
+                spin = rng.uniform(-1.0, 1.0)
+                sp.spinCustom(spin)
                 base = sp.getBottomT().gTM()
-                bl, tl = spzoo.tables(sp)
+                Rz = rf.rot_exp([0, 0, spin])
+                bl, tl = Rz @ bl, Rz @ tl            # the re-spun plate-fixed points, computed (C09's G0), not read back
         for _ in range(n_poses):
             rel = spzoo.workspace_pose(rng, h)
             T = base @ rel
